@@ -15,7 +15,7 @@ use crate::refmodel::mdtok::*;
 
 pub struct VcMd;
 
-pub const LINE_KINDS: [&str; 28] = [
+pub const LINE_KINDS: [&str; 30] = [
     // non-ASCII text in every line role (heading, prose, command, expectation)
     "# \u{65e5}\u{672c}",
     "\u{e9}t\u{e9} prose",
@@ -32,6 +32,8 @@ pub const LINE_KINDS: [&str; 28] = [
     "```scrut",
     "````scrut",
     "```scrut {timeout: 3s}",
+    "```scrut {timeout: 3s} ",
+    "```scrut { }",
     "```bash",
     "````",
     "```",
@@ -64,6 +66,9 @@ pub fn segments() -> Vec<Vec<String>> {
         // a title glued on top of its block (no blank line on either side): title state must not leak from block to block
         s(&["Title A", "```scrut", "$ cmd", "```"]),
         s(&["# Other title", "```scrut", "$ cmd", "out", "```"]),
+        // blanks after the configuration; a configuration group of blanks
+        s(&["```scrut {timeout: 3s} ", "$ cmd", "out", "```"]),
+        s(&["```scrut { }", "$ cmd", "out", "```"]),
     ];
     let bodies: Vec<Vec<&str>> = vec![
         vec!["$ cmd"],
